@@ -8,7 +8,8 @@ from vlib.common import Broken
 
 
 def run(ctx, layer, check_vacuity=False):
-    r = tlc.run_tlc(ctx.scratch("wake-" + layer), "MpxWake.tla", "MpxWake.cfg", timeout=600, workers=4, out_name="wake.out", heap="2g")
+    cfg = "MpxWake_loop.cfg" if layer == "sendloop" else "MpxWake.cfg"     # the send loop is a consumer already asleep
+    r = tlc.run_tlc(ctx.scratch("wake-" + layer), "MpxWake.tla", cfg, timeout=600, workers=4, out_name="wake.out", heap="2g")
     tlc.require_ok(r, "MpxWake")
     if check_vacuity:
         rf = tlc.run_tlc(ctx.scratch("wake-pollfirst"), "MpxWake.tla", "MpxWake_pollfirst.cfg", timeout=600, workers=4, out_name="wakef.out", heap="2g")
